@@ -2,7 +2,7 @@
 From Coq Require Import List Arith ZArith Reals PrimFloat.
 Import ListNotations.
 From Flocq Require Import Core.
-From Yaqs Require Import Model.JumpPipeline Model.Grid Proofs.JumpPipelineP Proofs.GridP.
+From Yaqs Require Import Model.JumpPipeline Model.Grid Proofs.JumpPipelineP Proofs.GridP Gen.SmallGen Proofs.SmallGenP.
 
 (* number of steps computed by the grid construction, in binary64 round-to-nearest-even semantics (Flocq):
    round(fl(fl(k*dt)/dt)) = k, so the grid has k+1 points, for 1 <= k <= 2^40 and no underflow.
@@ -44,3 +44,13 @@ Print Assumptions C15_final_time_order2.
 
 Example C15_example : grid_len 0x1.999999999999ap-3%float 0x1.999999999999ap-4%float = 3%Z /\ cols2 (fun _ => false) false 2 = [(0, [Dh; J; U; Dh; J])].
 Proof. vm_compute. split; reflexivity. Qed.
+
+(* tie to the source by translation (Gen/SmallGen.v regenerated on every run): the expression assigned to AnalogSimParams.times is
+   the model's grid: round(T/dt)+1 points, point j = fl(dt*j) *)
+Theorem C15_source_times_is_model : forall elapsed_time dt, times_src elapsed_time dt = grid elapsed_time dt.
+Proof. exact times_src_is_model. Qed.
+Print Assumptions C15_source_times_is_model.
+Theorem C15_source_times_length : forall elapsed_time dt,
+  Z.of_nat (length (times_src elapsed_time dt)) = Z.max 0 (grid_len elapsed_time dt).
+Proof. exact times_src_length. Qed.
+Print Assumptions C15_source_times_length.
